@@ -1,17 +1,20 @@
 """C16 — typed wiring under misbehaving handlers.
 
-World: the real WiringDiagram + DiagramExecutor.  A plan is a diagram (modules with
-0-3 typed input/output ports, capability sets), a list of *attempted* wires
-(cycles, fan-in, self-loops, ill-typed and unknown-port attempts included), the
-external-input assignment (raw or explicitly labelled, also mislabelled), and one
-scripted behaviour per module handler (or "not registered").  Every handler is a
-fake that judges what it is handed *at the moment it is called* and then returns
-raw, correctly labelled or contradicting values.
+World: the real WiringDiagram + DiagramExecutor, used as a long-lived pair.  A plan
+is a diagram (modules with 0-3 typed input/output ports, capability sets), a list of
+*attempted* wires (cycles, fan-in, self-loops, ill-typed and unknown-port attempts
+included), the external-input assignment (raw or explicitly labelled, also
+mislabelled), one scripted behaviour per module handler (or "not registered"), the
+`enforce_static_checks` flag, and optionally a second phase (`post`): after the
+first `execute()` modules are added, wires attempted, external inputs added or
+withdrawn, handlers registered — and the same executor executes the same diagram
+again.  Every handler is a fake that judges what it is handed *at the moment it is
+called* and then returns raw, correctly labelled or contradicting values.
 
-Fault enumeration: run i < table size is the i-th case of a finite table
-(14 diagram shapes of <= 3 modules x external-label variants x every assignment of
-the 10 handler behaviours); runs beyond the table are sampled diagrams of 1..7
-modules.
+Fault enumeration: run i < table size is the i-th case of a finite table (fixed
+diagram shapes of <= 3 modules x external-label variants x every assignment of the
+10 handler behaviours, flag off as well for the shapes of <= 2 modules, four shapes
+with a second phase); runs beyond the table are sampled diagrams of 1..7 modules.
 
 A scheduler loop that never ends is a deterministic verdict: the executor runs
 under a SeqTracer line budget.
@@ -40,45 +43,69 @@ STEP_BUDGET = 20_000
 
 V, U, T = 1, 0, 2
 _P = lambda g=V, t="TEXT": [t, g]                                    # noqa: E731
-# shape: (name, modules [(ins, outs)], wires [(src, sp, dst, dp)], external ports [(mod, port)])
+_M = lambda ins, outs: (ins, outs)                                   # noqa: E731
+
+
+def _shape(name, mods, wires, exts, post=()):
+    n = len(mods) + sum(1 for e in post if e[0] == "mod")
+    return {"name": name, "mods": mods, "wires": wires, "exts": exts, "post": [list(e) for e in post],
+            "flags": (True, False) if n <= 2 else (True,), "n": n}
+
+
 SHAPES = [
-    ("single", [([_P()], [_P(t="JSON")])], [], [(0, 0)]),
-    ("source_only", [([], [_P()])], [], []),
-    ("selfloop", [([_P()], [_P()])], [(0, 0, 0, 0)], []),
-    ("chain2", [([_P()], [_P()]), ([_P()], [_P()])], [(0, 0, 1, 0)], [(0, 0)]),
-    ("chain2_down", [([_P()], [_P()]), ([_P(U)], [_P()])], [(0, 0, 1, 0)], [(0, 0)]),
-    ("cycle2", [([_P()], [_P()]), ([_P()], [_P()])], [(0, 0, 1, 0), (1, 0, 0, 0)], []),
-    ("ext_plus_wire2", [([_P()], [_P()]), ([_P()], [_P()])], [(0, 0, 1, 0)], [(0, 0), (1, 0)]),
-    ("chain3", [([_P()], [_P()]), ([_P()], [_P()]), ([_P(U)], [_P()])], [(0, 0, 1, 0), (1, 0, 2, 0)], [(0, 0)]),
-    ("fanout3", [([_P()], [_P()]), ([_P()], [_P()]), ([_P(U)], [_P()])], [(0, 0, 1, 0), (0, 0, 2, 0)], [(0, 0)]),
-    ("join3", [([_P()], [_P()]), ([], [_P(T)]), ([_P(), _P(T)], [_P()])], [(0, 0, 2, 0), (1, 0, 2, 1)], [(0, 0)]),
-    ("fanin3", [([_P()], [_P()]), ([], [_P()]), ([_P()], [_P()])], [(0, 0, 2, 0), (1, 0, 2, 0)], [(0, 0)]),
-    ("cycle3", [([_P()], [_P()]), ([_P()], [_P()]), ([_P()], [_P()])], [(0, 0, 1, 0), (1, 0, 2, 0), (2, 0, 0, 0)], []),
-    ("missing_source3", [([_P()], [_P()]), ([_P(), _P()], [_P()]), ([_P()], [_P()])],
-     [(0, 0, 1, 0), (1, 0, 2, 0)], [(0, 0)]),
-    ("sink3", [([_P()], [_P()]), ([_P()], [_P()]), ([_P(U)], [])], [(0, 0, 1, 0), (1, 0, 2, 0)], [(0, 0)]),
+    _shape("single", [_M([_P()], [_P(t="JSON")])], [], [(0, 0)]),
+    _shape("source_only", [_M([], [_P()])], [], []),
+    _shape("selfloop", [_M([_P()], [_P()])], [(0, 0, 0, 0)], []),
+    _shape("chain2", [_M([_P()], [_P()]), _M([_P()], [_P()])], [(0, 0, 1, 0)], [(0, 0)]),
+    _shape("chain2_down", [_M([_P()], [_P()]), _M([_P(U)], [_P()])], [(0, 0, 1, 0)], [(0, 0)]),
+    _shape("cycle2", [_M([_P()], [_P()]), _M([_P()], [_P()])], [(0, 0, 1, 0), (1, 0, 0, 0)], []),
+    _shape("ext_plus_wire2", [_M([_P()], [_P()]), _M([_P()], [_P()])], [(0, 0, 1, 0)], [(0, 0), (1, 0)]),
+    _shape("chain3", [_M([_P()], [_P()]), _M([_P()], [_P()]), _M([_P(U)], [_P()])], [(0, 0, 1, 0), (1, 0, 2, 0)], [(0, 0)]),
+    _shape("fanout3", [_M([_P()], [_P()]), _M([_P()], [_P()]), _M([_P(U)], [_P()])], [(0, 0, 1, 0), (0, 0, 2, 0)], [(0, 0)]),
+    _shape("join3", [_M([_P()], [_P()]), _M([], [_P(T)]), _M([_P(), _P(T)], [_P()])], [(0, 0, 2, 0), (1, 0, 2, 1)], [(0, 0)]),
+    _shape("fanin3", [_M([_P()], [_P()]), _M([], [_P()]), _M([_P()], [_P()])], [(0, 0, 2, 0), (1, 0, 2, 0)], [(0, 0)]),
+    _shape("cycle3", [_M([_P()], [_P()]), _M([_P()], [_P()]), _M([_P()], [_P()])],
+           [(0, 0, 1, 0), (1, 0, 2, 0), (2, 0, 0, 0)], []),
+    _shape("missing_source3", [_M([_P()], [_P()]), _M([_P(), _P()], [_P()]), _M([_P()], [_P()])],
+           [(0, 0, 1, 0), (1, 0, 2, 0)], [(0, 0)]),
+    _shape("sink3", [_M([_P()], [_P()]), _M([_P()], [_P()]), _M([_P(U)], [])], [(0, 0, 1, 0), (1, 0, 2, 0)], [(0, 0)]),
+    # ---- second phase on the same executor: execute, change the diagram, execute again
+    _shape("extend3", [_M([_P()], [_P()]), _M([_P()], [_P()])], [(0, 0, 1, 0)], [(0, 0)],
+           post=[("mod", _M([_P(U)], [_P()])), ("wire", 1, 0, 2, 0)]),
+    _shape("late_fanin3", [_M([_P()], [_P()]), _M([], [_P()]), _M([_P()], [_P()])], [(0, 0, 2, 0)], [(0, 0)],
+           post=[("wire", 1, 0, 2, 0)]),
+    _shape("late_wire_over_ext2", [_M([_P()], []), _M([], [_P()])], [], [(0, 0)], post=[("wire", 1, 0, 0, 0)]),
+    _shape("late_fix3", [_M([_P()], [_P()]), _M([_P(), _P()], [_P()]), _M([_P()], [_P()])],
+           [(0, 0, 1, 0), (1, 0, 2, 0)], [(0, 0)], post=[("wire", 0, 0, 1, 1)]),
 ]
 
 
 def _shape_size(sh):
-    return (len(EXTS) if sh[3] else 1) * len(KINDS) ** len(sh[1])
+    return len(sh["flags"]) * (len(EXTS) if sh["exts"] else 1) * len(KINDS) ** sh["n"]
 
 
 TABLE_SIZE = sum(_shape_size(s) for s in SHAPES)
-RUNS = {"quick": TABLE_SIZE + 40_000, "thorough": TABLE_SIZE + 2_400_000}
+RUNS = {"quick": TABLE_SIZE + 30_000, "thorough": TABLE_SIZE + 2_400_000}
 EXHAUSTIVE = {"quick": False, "thorough": False}   # the statement's space (<= 7 modules, all port types) is sampled
-RULE = (f"run i < {TABLE_SIZE} is the i-th case of the complete table: 14 fixed diagram shapes of 1-3 modules (single, "
-        "source-only, self-loop, chain, downgrading chain, 2- and 3-cycle, external+wire on one port, fan-out, join, "
-        "fan-in on one port, missing source, sink without outputs) x 5 labellings of the first external input (raw, "
+RULE = (f"run i < {TABLE_SIZE} is the i-th case of the complete table: {len(SHAPES)} fixed diagram shapes of 1-3 modules "
+        "(single, source-only, self-loop, chain, downgrading chain, 2- and 3-cycle, external+wire on one port, fan-out, "
+        "join, fan-in on one port, missing source, sink without outputs; and four two-phase shapes on one executor: "
+        "execute, then extend the chain / add a second producer to a fed port / wire a producer into an externally fed "
+        "port / supply the missing source, then execute again) x 5 labellings of the first external input (raw, "
         "UNTRUSTED/VALIDATED/TRUSTED label, wrong data type) x every assignment of the 10 handler behaviours {raw, "
         "correctly labelled, wrong data type, integrity one step lower, one step higher, missing port, extra port, "
-        "returns nothing, raises, not registered} to the modules; runs beyond the table sample diagrams of 1..7 modules "
-        "with 0..3 ports each over 1-3 of the 7 data types x 3 integrity labels, attempted wires (type-correct DAG "
-        "wiring plus random extra attempts, or fully random attempts incl. unknown ports), external inputs raw / "
-        "labelled / mislabelled / missing / doubled with a wire, and a per-run share of misbehaving handlers; "
-        "non-trivial = at least one accepted wire and at least one handler whose behaviour actually contradicts its "
-        "declaration, or an unschedulable diagram (cycle, missing or duplicate source, missing handler) with at least "
-        "one accepted wire or rejected attempt; distinct = distinct (modules, attempted wires, external inputs)")
+        "returns nothing, raises, not registered} to the modules, x enforce_static_checks on/off for the shapes of <= 2 "
+        "modules; runs beyond the table sample diagrams of 1..7 modules with 0..3 ports each over 1-3 of the 7 data "
+        "types x 3 integrity labels, attempted wires (type-correct DAG wiring plus random extra attempts, or fully "
+        "random attempts incl. unknown ports), external inputs raw / labelled / mislabelled / missing / doubled with a "
+        "wire, a per-run share of misbehaving handlers, enforce_static_checks off in a third of the runs, and in 40 % "
+        "of the runs a second phase (new modules, further wire attempts, external inputs added or withdrawn, late "
+        "handler registration) followed by a second execute() on the same executor; the capability question is asked, "
+        "the answer edited by the caller, asked again, and asked of a second diagram that reuses the first ModuleSpec "
+        "objects; non-trivial = at least one accepted wire and at least one handler whose behaviour actually "
+        "contradicts its declaration, or an unschedulable diagram (cycle, missing or duplicate source, missing handler) "
+        "with at least one accepted wire or rejected attempt; distinct = distinct (configuration, modules, attempted "
+        "wires, external inputs, second phase)")
 COMPONENTS = {"real": ["operon_ai.core.wagent.WiringDiagram/ModuleSpec/PortType", "operon_ai.core.wiring_runtime.DiagramExecutor/TypedValue",
                        "operon_ai.core.types.DataType/IntegrityLabel/Capability"],
               "stub": ["module handlers (judging, scripted fakes)"]}
@@ -94,12 +121,22 @@ ASSUMPTIONS = [
     "a raising handler's exception may propagate instead of the wiring error of an unschedulable diagram",
     "a schedulable diagram whose handlers and external inputs all conform must execute (else 'every module runs "
     "exactly once' could be met by never running anything)",
-    "unknown-port connect attempts must be refused (any exception); enforce_static_checks is left at its default",
+    "unknown-port connect attempts must be refused (any exception)",
+    "enforce_static_checks=False exempts nothing: the statement has no such exemption and, on diagrams built through "
+    "connect(), the flag only removes a per-wire re-check that connect() and the output coercion already imply",
+    "every execute() of the same executor is 'an execution of an accepted diagram': the diagram is read as it is at "
+    "that moment (wires and modules added after an earlier execute() count)",
+    "the declared capability sets are the harness's own copy of the plan; a returned answer belongs to the caller "
+    "(editing it must not change later answers), and a ModuleSpec reused in a second diagram still declares what it "
+    "was built with",
 ]
 EXPECT_PROBES = ("executed", "wiring_error", "cycle", "fan_in", "ext_plus_wire", "missing_source", "missing_handler",
                  "connect_refused_type", "connect_refused_integrity", "connect_refused_unknown_port",
                  "connect_downgrade_accepted", "mislabel_lower", "mislabel_higher", "mislabel_type", "omitted_wired_port",
-                 "handler_raised", "ext_mislabelled", "seven_modules", "executed_5plus_modules", "labelled_outputs_accepted")
+                 "handler_raised", "ext_mislabelled", "seven_modules", "executed_5plus_modules", "labelled_outputs_accepted",
+                 "second_execute", "second_execute_ok_after_first_failed", "second_execute_refused_after_first_ok",
+                 "second_execute_after_late_wire", "second_execute_after_late_module", "static_checks_off",
+                 "static_off_unwired_handlerless_module", "caps_answer_edited", "caps_spec_reused")
 
 
 class HandlerBoom(RuntimeError):
@@ -107,23 +144,29 @@ class HandlerBoom(RuntimeError):
 
 
 # --------------------------------------------------------------------------- plan generation
+def _mod(ins, outs, kd):
+    return {"ins": [list(p) for p in ins], "outs": [list(p) for p in outs], "caps": [],
+            "handler": None if kd == "unregistered" else [kd, 0]}
+
+
 def _table_case(i):
-    for name, mods, wires, exts in SHAPES:
-        size = _shape_size((name, mods, wires, exts))
+    for sh in SHAPES:
+        size = _shape_size(sh)
         if i >= size:
             i -= size
             continue
         kinds = []
-        for _ in mods:
+        for _ in range(sh["n"]):
             kinds.append(KINDS[i % len(KINDS)])
             i //= len(KINDS)
-        ext_kind = EXTS[i] if exts else None
-        modules = []
-        for (ins, outs), kd in zip(mods, kinds):
-            modules.append({"ins": [list(p) for p in ins], "outs": [list(p) for p in outs], "caps": [],
-                            "handler": None if kd == "unregistered" else [kd, 0]})
+        ext_kind = None
+        if sh["exts"]:
+            ext_kind, i = EXTS[i % len(EXTS)], i // len(EXTS)
+        static = sh["flags"][i]
+        mods = sh["mods"]
+        modules = [_mod(ins, outs, kd) for (ins, outs), kd in zip(mods, kinds)]
         pre = []
-        for n_, (m, p) in enumerate(exts):
+        for n_, (m, p) in enumerate(sh["exts"]):
             t, g = mods[m][0][p]
             kd = ext_kind if n_ == 0 else "raw"
             if kd == "raw":
@@ -132,8 +175,18 @@ def _table_case(i):
                 pre.append([m, p, "tv", DT[(DT.index(t) + 1) % len(DT)], g])
             else:
                 pre.append([m, p, "tv", t, {"label_U": U, "label_V": V, "label_T": T}[kd]])
-        return {"config": {"family": "table", "shape": name}, "modules": modules,
-                "ops": [list(w) for w in wires], "pre": pre}
+        post, q = [], len(mods)
+        for e in sh["post"]:
+            if e[0] == "mod":
+                post.append(["mod", _mod(e[1][0], e[1][1], kinds[q])])
+                q += 1
+            else:
+                post.append(list(e))
+        plan = {"config": {"family": "table", "shape": sh["name"], "static": static, "caps_edit": "clear"},
+                "modules": modules, "ops": [list(w) for w in sh["wires"]], "pre": pre}
+        if post:
+            plan["post"] = post
+        return plan
     return None
 
 
@@ -157,55 +210,64 @@ def _ext_entry(rng, m, p, port, p_bad):
     return [m, p, "tv", t, rng.randint(g, 2)]                  # at or above the requirement
 
 
+def _new_module(rng, types, p_bad, first=False):
+    ni = rng.choice([0, 0, 1, 1, 2]) if first else rng.choice([0, 1, 1, 2, 2, 3])
+    no = rng.choice([0, 1, 1, 1, 2, 3])
+    return {"ins": [[rng.choice(types), rng.choice([0, 0, 1, 1, 2])] for _ in range(ni)],
+            "outs": [[rng.choice(types), rng.choice([0, 1, 1, 2, 2])] for _ in range(no)],
+            "caps": rng.sample(CAPS, rng.choice([0, 0, 1, 2, 3])),
+            "handler": _behaviour(rng, p_bad)}
+
+
 def _sampled(rng, tier):
     n = weighted(rng, [(1, 1), (2, 2), (3, 3), (3, 4), (3, 5), (2, 6), (3, 7)])
+    two_phase = rng.random() < 0.4
+    if two_phase and n > 2 and rng.random() < 0.5:
+        n -= 1                                      # leave room for a module added later (<= 7 in total)
     types = rng.sample(DT, rng.choice([1, 2, 2, 3]))
     p_bad = rng.choice([0.0, 0.0, 0.12, 0.3, 0.6])
-    modules = []
-    for j in range(n):
-        ni = rng.choice([0, 1, 1, 2, 2, 3]) if j else rng.choice([0, 0, 1, 1, 2])
-        no = rng.choice([0, 1, 1, 1, 2, 3])
-        modules.append({"ins": [[rng.choice(types), rng.choice([0, 0, 1, 1, 2])] for _ in range(ni)],
-                        "outs": [[rng.choice(types), rng.choice([0, 1, 1, 2, 2])] for _ in range(no)],
-                        "caps": rng.sample(CAPS, rng.choice([0, 0, 1, 2, 3])),
-                        "handler": _behaviour(rng, p_bad)})
+    modules = [_new_module(rng, types, p_bad, first=(j == 0)) for j in range(n)]
     ops, pre = [], []
     structured = rng.random() < 0.72
     p_ext_bad = rng.choice([0.0, 0.0, 0.05, 0.15])
-    outs_all = [(m, p) for m, md in enumerate(modules) for p in range(len(md["outs"]))]
-    ins_all = [(m, p) for m, md in enumerate(modules) for p in range(len(md["ins"]))]
+
+    def outs_all():
+        return [(m, p) for m, md in enumerate(modules) for p in range(len(md["outs"]))]
+
+    def ins_all():
+        return [(m, p) for m, md in enumerate(modules) for p in range(len(md["ins"]))]
 
     def compatible(src, dst):
         a, b = modules[src[0]]["outs"][src[1]], modules[dst[0]]["ins"][dst[1]]
         return a[0] == b[0] and a[1] >= b[1]
 
     if structured:
-        for (m, p) in ins_all:
-            cands = [s for s in outs_all if s[0] < m and compatible(s, (m, p))]
+        for (m, p) in ins_all():
+            cands = [s for s in outs_all() if s[0] < m and compatible(s, (m, p))]
             r = rng.random()
             if cands and r < 0.72:
                 s = rng.choice(cands)
                 ops.append([s[0], s[1], m, p])
                 if rng.random() < 0.04:
                     pre.append(_ext_entry(rng, m, p, modules[m]["ins"][p], 0.0))      # external value AND a wire
-            elif r < 0.95:
+            elif r < (0.88 if two_phase else 0.95):
                 pre.append(_ext_entry(rng, m, p, modules[m]["ins"][p], p_ext_bad))
             # else: no source at all
-        if rng.random() < 0.4 and outs_all and ins_all:
+        if rng.random() < 0.4 and outs_all() and ins_all():
             for _ in range(rng.choice([1, 1, 2])):                                    # extra attempts: anything goes
-                s, d = rng.choice(outs_all), rng.choice(ins_all)
+                s, d = rng.choice(outs_all()), rng.choice(ins_all())
                 ops.insert(rng.randint(0, len(ops)), [s[0], s[1], d[0], d[1]])
-        if rng.random() < 0.08:
+        if rng.random() < (0.2 if two_phase else 0.08):
             modules[rng.randrange(n)]["handler"] = None
     else:
-        if outs_all and ins_all:
+        if outs_all() and ins_all():
             for _ in range(rng.randint(0, 2 * n)):
-                d = rng.choice(ins_all)
-                cands = [s for s in outs_all if compatible(s, d)]
-                s = rng.choice(cands) if (cands and rng.random() < 0.6) else rng.choice(outs_all)
+                d = rng.choice(ins_all())
+                cands = [s for s in outs_all() if compatible(s, d)]
+                s = rng.choice(cands) if (cands and rng.random() < 0.6) else rng.choice(outs_all())
                 ops.append([s[0], s[1], d[0], d[1]])
         wired = {(o[2], o[3]) for o in ops}
-        for (m, p) in ins_all:
+        for (m, p) in ins_all():
             if ((m, p) not in wired and rng.random() < 0.85) or rng.random() < 0.05:
                 pre.append(_ext_entry(rng, m, p, modules[m]["ins"][p], p_ext_bad))
         for md in modules:
@@ -219,8 +281,65 @@ def _sampled(rng, tier):
         else:
             bad[3] = len(modules[o[2]]["ins"])
         ops.insert(rng.randint(0, len(ops)), bad)
-    return {"config": {"family": "sampled", "shape": "structured" if structured else "random"},
+    plan = {"config": {"family": "sampled", "shape": "structured" if structured else "random",
+                       "static": rng.random() >= 0.33,
+                       "caps_edit": rng.choice(["none", "clear", "clear", "add", "discard"])},
             "modules": modules, "ops": ops, "pre": pre}
+    if not two_phase:
+        return plan
+    # ---- second phase: the diagram changes after the first execute(); the same executor runs it again
+    post = []
+    sourced = {(o[2], o[3]) for o in ops} | {(e[0], e[1]) for e in pre}
+    for _ in range(rng.choice([1, 1, 2, 3])):
+        act = weighted(rng, [(3, "extend"), (3, "second_source"), (2, "fix"), (1.5, "attempt"), (1, "unext"), (1.5, "reg")])
+        if act == "extend" and len(modules) < 7:
+            md = _new_module(rng, types, p_bad)
+            modules.append(md)                       # visible to outs_all()/ins_all() below; moved into `post` at the end
+            m = len(modules) - 1
+            post.append(["mod", m])
+            for p in range(len(md["ins"])):
+                cands = [s for s in outs_all() if s[0] != m and compatible(s, (m, p))]
+                if cands and rng.random() < 0.8:
+                    s = rng.choice(cands)
+                    post.append(["wire", s[0], s[1], m, p])
+                else:
+                    post.append(["ext"] + _ext_entry(rng, m, p, md["ins"][p], p_ext_bad))
+                sourced.add((m, p))
+        elif act == "second_source":
+            tgt = sorted(sourced)
+            if tgt:
+                d = rng.choice(tgt)
+                if d[1] < len(modules[d[0]]["ins"]):
+                    cands = [s for s in outs_all() if compatible(s, d)]
+                    if cands:
+                        s = rng.choice(cands)
+                        post.append(["wire", s[0], s[1], d[0], d[1]])
+        elif act == "fix":
+            un = [d for d in ins_all() if d not in sourced]
+            if un:
+                d = rng.choice(un)
+                cands = [s for s in outs_all() if s[0] < d[0] and compatible(s, d)]
+                if cands and rng.random() < 0.6:
+                    s = rng.choice(cands)
+                    post.append(["wire", s[0], s[1], d[0], d[1]])
+                else:
+                    post.append(["ext"] + _ext_entry(rng, d[0], d[1], modules[d[0]]["ins"][d[1]], 0.0))
+                sourced.add(d)
+        elif act == "attempt" and outs_all() and ins_all():
+            s, d = rng.choice(outs_all()), rng.choice(ins_all())
+            post.append(["wire", s[0], s[1], d[0], d[1]])
+        elif act == "unext" and pre:
+            e = rng.choice(pre)
+            post.append(["unext", e[0], e[1]])
+        elif act == "reg":
+            un = [j for j, md in enumerate(modules) if md["handler"] is None]
+            if un:
+                post.append(["reg", rng.choice(un), _behaviour(rng, 0.1)])
+    # modules created by the second phase travel inside their "mod" entry
+    late = {e[1] for e in post if e[0] == "mod"}
+    plan["modules"] = [md for j, md in enumerate(modules) if j not in late]
+    plan["post"] = [["mod", modules[e[1]]] if e[0] == "mod" else e for e in post]
+    return plan
 
 
 def gen(rng, tier, i):
@@ -230,13 +349,22 @@ def gen(rng, tier, i):
 
 def simplify(plan):
     mods = plan["modules"]
-    # drop a module nobody refers to any more (indices above it shift down)
-    for j in range(len(mods) - 1, -1, -1):
-        if len(mods) > 1 and not any(j in (o[0], o[2]) for o in plan["ops"]) and not any(e[0] == j for e in plan["pre"]):
-            sh = lambda x: x - 1 if x > j else x                                       # noqa: E731
-            yield {**plan, "modules": [dict(m) for q, m in enumerate(mods) if q != j],
-                   "ops": [[sh(o[0]), o[1], sh(o[2]), o[3]] for o in plan["ops"]],
-                   "pre": [[sh(e[0])] + list(e[1:]) for e in plan["pre"]]}
+    cfg = plan["config"]
+    if cfg.get("static") is False:
+        yield {**plan, "config": {**cfg, "static": True}}
+    if cfg.get("caps_edit", "none") != "none":
+        yield {**plan, "config": {**cfg, "caps_edit": "none"}}
+    post = plan.get("post") or []
+    refs_post = lambda j: any((e[0] == "wire" and j in (e[1], e[3])) or (e[0] in ("ext", "unext", "reg") and e[1] == j)  # noqa: E731
+                              for e in post)
+    # drop a module nobody refers to any more (indices above it shift down); only while there is no second phase
+    if not post:
+        for j in range(len(mods) - 1, -1, -1):
+            if len(mods) > 1 and not any(j in (o[0], o[2]) for o in plan["ops"]) and not any(e[0] == j for e in plan["pre"]):
+                sh = lambda x: x - 1 if x > j else x                                       # noqa: E731
+                yield {**plan, "modules": [dict(m) for q, m in enumerate(mods) if q != j],
+                       "ops": [[sh(o[0]), o[1], sh(o[2]), o[3]] for o in plan["ops"]],
+                       "pre": [[sh(e[0])] + list(e[1:]) for e in plan["pre"]]}
     for j, m in enumerate(mods):
         if m["handler"] != ["raw", 0]:
             nm = [dict(x) for x in mods]
@@ -257,6 +385,7 @@ def simplify(plan):
                 mcol = 0 if side == "outs" else 2
                 used = any(o[mcol] == j and o[col] == last for o in plan["ops"])
                 used = used or (side == "ins" and any(e[0] == j and e[1] == last for e in plan["pre"]))
+                used = used or refs_post(j)
                 if not used:
                     nm = [dict(x) for x in mods]
                     nm[j][side] = [list(p) for p in m[side][:-1]]
@@ -266,6 +395,11 @@ def simplify(plan):
             pre = [list(x) for x in plan["pre"]]
             pre[n_] = [e[0], e[1], "raw"]
             yield {**plan, "pre": pre}
+    for n_, e in enumerate(post):
+        if e[0] == "mod" and e[1]["handler"] != ["raw", 0]:
+            np_ = [list(x) for x in post]
+            np_[n_] = ["mod", {**e[1], "handler": ["raw", 0]}]
+            yield {**plan, "post": np_}
 
 
 # --------------------------------------------------------------------------- helpers of the oracle
@@ -313,91 +447,243 @@ def _cyclic(n, wires):
     return any(state[j] == 0 and visit(j) for j in range(n))
 
 
-# --------------------------------------------------------------------------- one run
-def run(plan, k):
-    mods = plan["modules"]
-    n = len(mods)
-    k.key = [mods, plan["ops"], plan["pre"]]
-    if n == 7:
-        k.probe("seven_modules")
-    d = WiringDiagram()
-    for j, m in enumerate(mods):
-        d.add_module(ModuleSpec(
+class _World:
+    """The long-lived diagram/executor pair and the harness's own record of what was declared and accepted."""
+
+    def __init__(self, k, plan, tr):
+        self.k, self.plan, self.tr = k, plan, tr
+        self.cfg = plan["config"]
+        self.static = self.cfg.get("static", True) is not False
+        self.mods = []            # the harness's copy of every module declaration (never read back from the specs)
+        self.specs = []
+        self.d = WiringDiagram()
+        self.ex = DiagramExecutor(self.d)
+        self.accepted = []
+        self.refused = 0
+        self.ext = {}             # (module, port) -> ("raw", token) | ("tv", type, integrity, token)
+        self.nontrivial = False
+        # per execution
+        self.count, self.calls, self.bad_label_delivered = [], [], False
+        self.sources, self.reasons, self.shape, self.eff, self.wired_out = {}, [], "dag", [], set()
+
+    # ---- building
+    def add_module(self, m, late=False):
+        j = len(self.mods)
+        m = {"ins": [list(p) for p in m["ins"]], "outs": [list(p) for p in m["outs"]], "caps": list(m["caps"]),
+             "handler": None if m["handler"] is None else list(m["handler"])}
+        spec = ModuleSpec(
             name=f"m{j}",
             inputs={f"i{p}": PortType(DataType[t], IntegrityLabel(g)) for p, (t, g) in enumerate(m["ins"])},
             outputs={f"o{p}": PortType(DataType[t], IntegrityLabel(g)) for p, (t, g) in enumerate(m["outs"])},
-            capabilities={Capability[c] for c in m["caps"]}))
+            capabilities={Capability[c] for c in m["caps"]})
+        out = call(self.d.add_module, spec, tracer=self.tr)
+        if out.kind != "ok":
+            raise HarnessError(f"add_module failed: {out.brief()}")
+        self.mods.append(m)
+        self.specs.append(spec)
+        if m["handler"] is not None:
+            self.register(j)
 
-    scope = [seams.src("operon_ai/core/wiring_runtime.py"), seams.src("operon_ai/core/wagent.py")]
-    with SeqTracer(k, scope, STEP_BUDGET) as tr:
-        # ---------------- building: connect accepts <=> same data type and source integrity >= destination integrity
-        accepted = []
-        refused = 0
-        for op in plan["ops"]:
-            s, sp, t, tp = op
-            known = sp < len(mods[s]["outs"]) and tp < len(mods[t]["ins"])
-            if known:
-                (st, sg), (dt_, dg) = mods[s]["outs"][sp], mods[t]["ins"][tp]
-                legal = st == dt_ and sg >= dg
-                rel = f"same_type={st == dt_}:src{'<' if sg < dg else '=' if sg == dg else '>'}dst"
-            else:
-                legal, rel = False, "unknown_port"
-            out = call(d.connect, f"m{s}", f"o{sp}", f"m{t}", f"i{tp}", tracer=tr)
-            k.ev("connect", [op, out.brief()])
-            if out.kind not in ("ok", "raised"):
-                k.violation("connect_rule", "connect_" + out.kind, rel)
-                return
-            if out.kind == "ok":
-                if not legal:
-                    k.violation("connect_rule", "accepted_illegal_wire", rel,
-                                f"connect m{s}.o{sp} {mods[s]['outs'][sp] if known else '?'} -> m{t}.i{tp} "
-                                f"{mods[t]['ins'][tp] if known else '?'} was accepted")
-                    # the diagram now holds a wire the statement forbids; what execution does with it is not judged
-                    return
-                accepted.append(op)
-                if sg > dg:
-                    k.probe("connect_downgrade_accepted")
-            else:
-                refused += 1
-                if legal:
-                    k.violation("connect_rule", "refused_legal_wire", rel, f"{op}: {out.exc!r}"[:200])
-                    return
-                if known and not isinstance(out.exc, WiringError):
-                    k.violation("connect_rule", "refused_with_" + type(out.exc).__name__, rel)
-                k.probe("connect_refused_unknown_port" if not known else
-                        "connect_refused_type" if st != dt_ else "connect_refused_integrity")
-            got = [(w.src_module, w.src_port, w.dst_module, w.dst_port) for w in d.wires]
-            want = [(f"m{a}", f"o{b}", f"m{c}", f"i{e}") for a, b, c, e in accepted]
+    def register(self, j):
+        out = call(self.ex.register_module, f"m{j}", self._make_handler(j), tracer=self.tr)
+        if out.kind != "ok":
+            raise HarnessError(f"register_module failed: {out.brief()}")
+
+    def connect(self, op):
+        """One attempted wire; False = stop the run (a violation was recorded)."""
+        k, mods, d = self.k, self.mods, self.d
+        s, sp, t, tp = op
+        if not (0 <= s < len(mods) and 0 <= t < len(mods)):
+            return True           # left over by shrinking
+        known = sp < len(mods[s]["outs"]) and tp < len(mods[t]["ins"])
+        if known:
+            (st, sg), (dt_, dg) = mods[s]["outs"][sp], mods[t]["ins"][tp]
+            legal = st == dt_ and sg >= dg
+            rel = f"same_type={st == dt_}:src{'<' if sg < dg else '=' if sg == dg else '>'}dst"
+        else:
+            legal, rel = False, "unknown_port"
+        out = call(d.connect, f"m{s}", f"o{sp}", f"m{t}", f"i{tp}", tracer=self.tr)
+        k.ev("connect", [op, out.brief()])
+        if out.kind not in ("ok", "raised"):
+            k.violation("connect_rule", "connect_" + out.kind, rel)
+            return False
+        if out.kind == "ok":
+            if not legal:
+                k.violation("connect_rule", "accepted_illegal_wire", rel,
+                            f"connect m{s}.o{sp} {mods[s]['outs'][sp] if known else '?'} -> m{t}.i{tp} "
+                            f"{mods[t]['ins'][tp] if known else '?'} was accepted")
+                # the diagram now holds a wire the statement forbids; what execution does with it is not judged
+                return False
+            self.accepted.append(list(op))
+            if sg > dg:
+                k.probe("connect_downgrade_accepted")
+        else:
+            self.refused += 1
+            if legal:
+                k.violation("connect_rule", "refused_legal_wire", rel, f"{op}: {out.exc!r}"[:200])
+                return False
+            if known and not isinstance(out.exc, WiringError):
+                k.violation("connect_rule", "refused_with_" + type(out.exc).__name__, rel)
+            k.probe("connect_refused_unknown_port" if not known else
+                    "connect_refused_type" if st != dt_ else "connect_refused_integrity")
+        got = [(w.src_module, w.src_port, w.dst_module, w.dst_port) for w in d.wires]
+        want = [(f"m{a}", f"o{b}", f"m{c}", f"i{e}") for a, b, c, e in self.accepted]
+        if got != want:
+            k.violation("connect_rule", "wire_list_differs_from_accepted_connects", rel,
+                        f"wires={got} accepted={want}")
+            return False
+        return True
+
+    def set_ext(self, e):
+        m, p = e[0], e[1]
+        if not (0 <= m < len(self.mods)) or p >= len(self.mods[m]["ins"]):
+            return
+        if e[2] == "raw":
+            self.ext[(m, p)] = ("raw", f"x{m}.{p}")
+        else:
+            self.ext[(m, p)] = ("tv", e[3], e[4], f"x{m}.{p}")
+
+    # ---- capabilities: union over modules — at any time, whatever the caller did with earlier answers
+    def capabilities(self):
+        k, mods = self.k, self.mods
+
+        def ask(diagram, idxs, kind):
+            out = call(diagram.required_capabilities, tracer=self.tr)
+            want = sorted({c for j in idxs for c in mods[j]["caps"]})
+            got = sorted(getattr(c, "name", str(c)) for c in out.value) if out.kind == "ok" else out.brief()
+            k.ev("caps", [kind, got])
             if got != want:
-                k.violation("connect_rule", "wire_list_differs_from_accepted_connects", rel,
-                            f"wires={got} accepted={want}")
-                return
+                k.violation("caps_union", kind, "required_capabilities", f"{got} != declared union {want}")
+            return out.value if out.kind == "ok" else None
 
-        # ---------------- capabilities: union over modules
-        out = call(d.required_capabilities, tracer=tr)
-        want_caps = sorted({c for m in mods for c in m["caps"]})
-        got_caps = sorted(getattr(c, "name", str(c)) for c in out.value) if out.kind == "ok" else out.brief()
-        k.ev("caps", got_caps)
-        if got_caps != want_caps:
-            k.violation("caps_union", "not_the_union", "required_capabilities", f"{got_caps} != {want_caps}")
-
-        # ---------------- what the diagram is, by the harness's own reading of the accepted wires
-        ext = {}
-        ext_bad = []
-        for e in plan["pre"]:
-            m, p = e[0], e[1]
-            if p >= len(mods[m]["ins"]):
-                continue
-            pt, pg = mods[m]["ins"][p]
-            if e[2] == "raw":
-                ext[(m, p)] = ("raw", f"x{m}.{p}")
+        everything = range(len(mods))
+        first = ask(self.d, everything, "not_the_union")
+        edit = self.cfg.get("caps_edit", "none")
+        if edit != "none" and isinstance(first, set):
+            union = {c for m in mods for c in m["caps"]}
+            if edit == "clear":
+                first.clear()
+            elif edit == "discard":
+                for c in sorted(union)[:2]:
+                    first.discard(Capability[c])
             else:
-                ext[(m, p)] = ("tv", e[3], e[4], f"x{m}.{p}")
-                if e[3] != pt or e[4] < pg:
-                    if (m, p) not in ext_bad:
-                        ext_bad.append((m, p))
+                spare = [c for c in CAPS if c not in union]
+                first.add(Capability[spare[0]] if spare else Capability[CAPS[0]])
+            k.probe("caps_answer_edited")
+            ask(self.d, everything, "answer_changed_after_the_caller_edited_an_earlier_answer")
+        else:
+            ask(self.d, everything, "second_answer_differs")
+        # a ModuleSpec is a value object: reused in another diagram it declares what it was built with
+        idxs = [0] if len(mods) < 3 else [0, len(mods) - 1]
+        d2 = WiringDiagram()
+        for j in idxs:
+            d2.add_module(self.specs[j])
+        k.probe("caps_spec_reused")
+        ask(d2, idxs, "reused_module_spec_reports_undeclared_capabilities")
+
+    # ---- handlers: judge what they are handed, then misbehave as scripted
+    def feeder(self, j, p):
+        if (j, p) in self.sources:
+            s = self.sources[(j, p)][0][0]
+            return (self.mods[s]["handler"] or ["unregistered"])[0]
+        if (j, p) in self.ext:
+            return "ext_" + ("raw" if self.ext[(j, p)][0] == "raw" else "labelled")
+        return "nothing"
+
+    def _make_handler(self, j):
+        w, k = self, self.k
+
+        def handler(inputs):
+            m = w.mods[j]
+            shape = w.shape
+            while len(w.count) <= j:
+                w.count.append(0)
+            w.count[j] += 1
+            k.ev("call", [j, sorted(inputs) if isinstance(inputs, dict) else type(inputs).__name__])
+            if w.count[j] > 1:
+                k.violation("once", "handler_called_twice", shape, f"m{j} called {w.count[j]} times in one execute()")
+            if any((w.count[s_] if s_ < len(w.count) else 0) == 0
+                   for (t_, _), srcs in w.sources.items() if t_ == j for s_, _ in srcs):
+                # only ever seen with 'external value + wire on one port' (see ASSUMPTIONS): counted, not judged
+                k.probe("ran_before_a_feeder_in_unschedulable_diagram" if w.reasons else "ran_before_a_feeder")
+            if not isinstance(inputs, dict):
+                k.violation("all_inputs", "inputs_not_a_mapping", shape, type(inputs).__name__)
+                inputs = {}
+            for p, (pt, pg) in enumerate(m["ins"]):
+                name = f"i{p}"
+                if name not in inputs:
+                    origin = "wired" if (j, p) in w.sources else "external" if (j, p) in w.ext else "unsourced"
+                    k.violation("all_inputs", "ran_without_input", f"{origin}:{shape}",
+                                f"m{j} ran without its input {name}; it was handed {sorted(inputs)}")
+                    continue
+                v = inputs[name]
+                if not isinstance(v, TypedValue):
+                    k.violation("delivery_label", "unlabelled_value_delivered", f"{w.feeder(j, p)}:{shape}",
+                                f"m{j}.{name} received a bare {type(v).__name__}")
+                    w.bad_label_delivered = True
+                elif v.data_type != DataType[pt]:
+                    k.violation("delivery_label", "wrong_data_type_delivered", f"{w.feeder(j, p)}:{shape}",
+                                f"m{j}.{name} is {pt} but received {getattr(v.data_type, 'name', v.data_type)}")
+                    w.bad_label_delivered = True
+                elif not (v.integrity >= IntegrityLabel(pg)):
+                    k.violation("delivery_label", "insufficient_integrity_delivered", f"{w.feeder(j, p)}:{shape}",
+                                f"m{j}.{name} requires {IntegrityLabel(pg).name} but received "
+                                f"{getattr(v.integrity, 'name', v.integrity)}")
+                    w.bad_label_delivered = True
+            cls, t = _effective(m["handler"], m["outs"])
+            kd = m["handler"][0]
+            if cls == "raises":
+                w.calls.append((j, "raises", []))
+                k.fault("collab_raise")
+                k.probe("handler_raised")
+                raise HandlerBoom(f"m{j}")
+            if kd == "nothing":
+                w.calls.append((j, cls, list(range(len(m["outs"])))))
+                if m["outs"]:
+                    k.fault("collab_adversarial_value")
+                return None
+            out_ = {}
+            for p, (pt, pg) in enumerate(m["outs"]):
+                tok = f"v{j}.{p}"
+                out_[f"o{p}"] = TypedValue(DataType[pt], IntegrityLabel(pg), tok) if kd == "labelled" else tok
+            omitted = []
+            if cls == "omit":
+                del out_[f"o{t}"]
+                omitted = [t]
+            elif cls == "extra":
+                out_["zz"] = f"v{j}.zz"
+            elif cls.startswith("mislabel"):
+                pt, pg = m["outs"][t]
+                if cls == "mislabel_type":
+                    lab = (DataType[DT[(DT.index(pt) + 1) % len(DT)]], IntegrityLabel(pg))
+                elif cls == "mislabel_lower":
+                    lab = (DataType[pt], IntegrityLabel(pg - 1))
+                else:
+                    lab = (DataType[pt], IntegrityLabel(pg + 1))
+                out_[f"o{t}"] = TypedValue(lab[0], lab[1], f"v{j}.{t}")
+                k.probe(cls)
+            if cls != "conform":
+                k.fault("collab_adversarial_value")
+            if omitted and any((j, q) in w.wired_out for q in omitted):
+                k.probe("omitted_wired_port")
+            w.calls.append((j, cls, omitted))
+            return out_
+        return handler
+
+    # ---- one execute(), judged against the diagram as it is now
+    def execute(self, phase):
+        """Returns "ok" | "raised" | None (run must stop)."""
+        k, mods, ext = self.k, self.mods, self.ext
+        n = len(mods)
+        if n == 7:
+            k.probe("seven_modules")
+        ext_bad = []
+        for (m, p), e in sorted(ext.items()):
+            pt, pg = mods[m]["ins"][p]
+            if e[0] == "tv" and (e[1] != pt or e[2] < pg):
+                ext_bad.append((m, p))
         sources = {}
-        for s, sp, t, tp in accepted:
+        for s, sp, t, tp in self.accepted:
             sources.setdefault((t, tp), []).append((s, sp))
         reasons = []
         if any(m["handler"] is None and m["outs"] for m in mods):
@@ -406,206 +692,185 @@ def run(plan, k):
             reasons.append("fan_in")
         if any((j, p) not in sources and (j, p) not in ext for j, m in enumerate(mods) for p in range(len(m["ins"]))):
             reasons.append("missing_source")
-        if _cyclic(n, accepted):
+        if _cyclic(n, self.accepted):
             reasons.append("cycle")
         if any(key in ext for key in sources):
             reasons.append("ext_plus_wire")
         for r in reasons:
             k.probe(r)
         shape = reasons[0] if reasons else "dag"
+        if phase:
+            shape += ":re-executed"
+        wired_out = {(s, sp) for s, sp, _, _ in self.accepted}
         eff = [_effective(m["handler"], m["outs"]) for m in mods]
-        wired_out = {(s, sp) for s, sp, _, _ in accepted}
         contradicting = [e[0] for e in eff if e[0].startswith("mislabel") or e[0] in ("omit", "extra", "raises")]
-        if (accepted and contradicting) or (reasons and (accepted or refused)):
-            k.nontrivial = True
+        if (self.accepted and contradicting) or (reasons and (self.accepted or self.refused)):
+            self.nontrivial = True
+        if not self.static:
+            k.probe("static_checks_off")
+            if any(m["handler"] is None and m["outs"] and not any((j, q) in wired_out for q in range(len(m["outs"])))
+                   for j, m in enumerate(mods)):
+                k.probe("static_off_unwired_handlerless_module")
+        self.sources, self.reasons, self.shape, self.eff, self.wired_out = sources, reasons, shape, eff, wired_out
+        self.count, self.calls, self.bad_label_delivered = [0] * n, [], False
 
-        # ---------------- handlers: judge what they are handed, then misbehave as scripted
-        calls = []           # (module, class of what it returned, omitted ports)
-        count = [0] * n
-        state = {"bad_label_delivered": False}
-
-        def feeder(j, p):
-            if (j, p) in sources:
-                s = sources[(j, p)][0][0]
-                return (mods[s]["handler"] or ["unregistered"])[0]
-            if (j, p) in ext:
-                return "ext_" + ("raw" if ext[(j, p)][0] == "raw" else "labelled")
-            return "nothing"
-
-        def make(j):
-            m = mods[j]
-
-            def handler(inputs):
-                count[j] += 1
-                k.ev("call", [j, sorted(inputs) if isinstance(inputs, dict) else type(inputs).__name__])
-                if count[j] > 1:
-                    k.violation("once", "handler_called_twice", shape, f"m{j} called {count[j]} times")
-                if any(count[s_] == 0 for (t_, _), srcs in sources.items() if t_ == j for s_, _ in srcs):
-                    # only ever seen with 'external value + wire on one port' (see ASSUMPTIONS): counted, not judged
-                    k.probe("ran_before_a_feeder_in_unschedulable_diagram" if reasons else "ran_before_a_feeder")
-                if not isinstance(inputs, dict):
-                    k.violation("all_inputs", "inputs_not_a_mapping", shape, type(inputs).__name__)
-                    inputs = {}
-                for p, (pt, pg) in enumerate(m["ins"]):
-                    name = f"i{p}"
-                    if name not in inputs:
-                        origin = "wired" if (j, p) in sources else "external" if (j, p) in ext else "unsourced"
-                        k.violation("all_inputs", "ran_without_input", f"{origin}:{shape}",
-                                    f"m{j} ran without its input {name}; it was handed {sorted(inputs)}")
-                        continue
-                    v = inputs[name]
-                    if not isinstance(v, TypedValue):
-                        k.violation("delivery_label", "unlabelled_value_delivered", f"{feeder(j, p)}:{shape}",
-                                    f"m{j}.{name} received a bare {type(v).__name__}")
-                        state["bad_label_delivered"] = True
-                    elif v.data_type != DataType[pt]:
-                        k.violation("delivery_label", "wrong_data_type_delivered", f"{feeder(j, p)}:{shape}",
-                                    f"m{j}.{name} is {pt} but received {getattr(v.data_type, 'name', v.data_type)}")
-                        state["bad_label_delivered"] = True
-                    elif not (v.integrity >= IntegrityLabel(pg)):
-                        k.violation("delivery_label", "insufficient_integrity_delivered", f"{feeder(j, p)}:{shape}",
-                                    f"m{j}.{name} requires {IntegrityLabel(pg).name} but received "
-                                    f"{getattr(v.integrity, 'name', v.integrity)}")
-                        state["bad_label_delivered"] = True
-                cls, t = eff[j]
-                kd = m["handler"][0]
-                if cls == "raises":
-                    calls.append((j, "raises", []))
-                    k.fault("collab_raise")
-                    k.probe("handler_raised")
-                    raise HandlerBoom(f"m{j}")
-                if kd == "nothing":
-                    calls.append((j, cls, list(range(len(m["outs"])))))
-                    if m["outs"]:
-                        k.fault("collab_adversarial_value")
-                    return None
-                out_ = {}
-                for p, (pt, pg) in enumerate(m["outs"]):
-                    tok = f"v{j}.{p}"
-                    out_[f"o{p}"] = TypedValue(DataType[pt], IntegrityLabel(pg), tok) if kd == "labelled" else tok
-                omitted = []
-                if cls == "omit":
-                    del out_[f"o{t}"]
-                    omitted = [t]
-                elif cls == "extra":
-                    out_["zz"] = f"v{j}.zz"
-                elif cls.startswith("mislabel"):
-                    pt, pg = m["outs"][t]
-                    if cls == "mislabel_type":
-                        lab = (DataType[DT[(DT.index(pt) + 1) % len(DT)]], IntegrityLabel(pg))
-                    elif cls == "mislabel_lower":
-                        lab = (DataType[pt], IntegrityLabel(pg - 1))
-                    else:
-                        lab = (DataType[pt], IntegrityLabel(pg + 1))
-                    out_[f"o{t}"] = TypedValue(lab[0], lab[1], f"v{j}.{t}")
-                    k.probe(cls)
-                if cls != "conform":
-                    k.fault("collab_adversarial_value")
-                if omitted and any((j, q) in wired_out for q in omitted):
-                    k.probe("omitted_wired_port")
-                calls.append((j, cls, omitted))
-                return out_
-            return handler
-
-        ex = DiagramExecutor(d)
-        for j, m in enumerate(mods):
-            if m["handler"] is not None:
-                ex.register_module(f"m{j}", make(j))
         external = {}
-        for (m, p), e in ext.items():
+        for (m, p), e in sorted(ext.items()):
             val = e[1] if e[0] == "raw" else TypedValue(DataType[e[1]], IntegrityLabel(e[2]), e[3])
             external.setdefault(f"m{m}", {})[f"i{p}"] = val
         if ext_bad:
             k.probe("ext_mislabelled")
-
-        out = call(ex.execute, external, tracer=tr)
-    k.ev("execute", [out.brief()[0], type(out.exc).__name__ if out.exc is not None else None,
-                     list(out.value.execution_order) if out.kind == "ok" and hasattr(out.value, "execution_order") else None])
-
-    raised_by_fake = any(c[1] == "raises" for c in calls)
-    is_wiring_error = out.kind == "raised" and isinstance(out.exc, WiringError)
-    if is_wiring_error:
-        k.probe("wiring_error")
-    if out.kind in ("deadlock", "fake_budget"):
-        raise HarnessError(f"unexpected outcome {out.kind}")
-
-    # ---------------- clause unschedulable: wiring error, never a loop, never a report
-    if out.kind == "step_budget":
-        k.violation("unschedulable", "scheduler_did_not_terminate", shape,
-                    f"execute() exceeded {STEP_BUDGET} executor lines; handler calls so far {count}")
-        return
-    if reasons:
-        if out.kind == "ok":
-            k.violation("unschedulable", "report_returned", shape,
-                        f"diagram is unschedulable ({'+'.join(reasons)}) but execute() returned order "
-                        f"{getattr(out.value, 'execution_order', None)}")
-        elif not is_wiring_error and not (raised_by_fake and isinstance(out.exc, HandlerBoom)):
-            k.violation("unschedulable", "raised_" + type(out.exc).__name__, shape, repr(out.exc)[:200])
-        return
-
-    # ---------------- schedulable diagram
-    mislabelled = [c for c in calls if c[1].startswith("mislabel")]
-    omitted_wired = [c for c in calls if any((c[0], q) in wired_out for q in c[2])]
-    deviated = [c for c in calls if c[1] != "conform"]
-    if out.kind == "ok":
-        rep = out.value
-        k.probe("executed")
-        if n >= 5:
-            k.probe("executed_5plus_modules")
-        if any(m["handler"] is not None and m["handler"][0] == "labelled" and m["outs"] for m in mods):
-            k.probe("labelled_outputs_accepted")
-        # -- mislabelled outputs / external inputs are rejected
-        if mislabelled:
-            j, cls, _ = mislabelled[0]
-            k.violation("mislabel_rejected", "report_returned_after_" + cls, f"{mods[j]['handler'][0]}:{shape}",
-                        f"m{j} returned a value contradicting its declared port ({cls}); execute() returned a report")
-        if ext_bad and not state["bad_label_delivered"]:
-            m_, p_ = ext_bad[0]
-            k.violation("delivery_label", "mislabelled_external_input_accepted", f"ext_labelled:{shape}",
-                        f"external value for m{m_}.i{p_} {ext[(m_, p_)][1:3]} does not fit {mods[m_]['ins'][p_]}")
-        if omitted_wired and not k.violations:
-            j = omitted_wired[0][0]
-            k.violation("all_inputs", "report_returned_although_wired_port_missing", f"{mods[j]['handler'][0]}:{shape}",
-                        f"m{j} omitted a wired output port, yet a report was returned")
-        # -- every module exactly once, in an order consistent with the wires
-        order = list(rep.execution_order)
-        names = [f"m{j}" for j in range(n)]
-        if sorted(order) != sorted(names):
-            k.violation("once", "report_does_not_list_every_module_once", shape, f"order={order}")
+        if self.static:
+            out = call(self.ex.execute, external, tracer=self.tr)
         else:
-            pos = {nm: q for q, nm in enumerate(order)}
-            for s, sp, t, tp in accepted:
-                if not pos[f"m{s}"] < pos[f"m{t}"]:
-                    k.violation("order", "module_before_its_feeder", shape,
-                                f"wire m{s}.o{sp}->m{t}.i{tp} but order={order}")
-                    break
-        for j, m in enumerate(mods):
-            if m["handler"] is not None and count[j] != 1:
-                k.violation("once", "handler_not_called_exactly_once", shape, f"m{j}: {count[j]} calls; order={order}")
-        called = [f"m{c[0]}" for c in calls]
-        if called != [nm for nm in order if mods[int(nm[1:])]["handler"] is not None] and sorted(order) == sorted(names):
-            k.violation("order", "call_order_differs_from_reported_order", shape, f"calls={called} order={order}")
-        # -- labels of the recorded inputs
-        for j, m in enumerate(mods):
-            rec = rep.modules.get(f"m{j}")
-            if rec is None:
-                continue
-            for p, (pt, pg) in enumerate(m["ins"]):
-                v = rec.inputs.get(f"i{p}")
-                if (not isinstance(v, TypedValue) or v.data_type != DataType[pt] or not v.integrity >= IntegrityLabel(pg)) \
-                        and not state["bad_label_delivered"]:
-                    k.violation("delivery_label", "report_records_ill_labelled_input", f"{feeder(j, p)}:{shape}",
-                                f"m{j}.i{p} {m['ins'][p]} recorded {v!r}"[:200])
-    else:
-        # raised: fine if something gave it a reason to
-        if not (deviated or raised_by_fake or ext_bad):
-            k.violation("once", "schedulable_diagram_not_executed", shape,
-                        f"all handlers and external inputs conform, yet execute() raised {out.exc!r}"[:240])
-        elif raised_by_fake and not isinstance(out.exc, (HandlerBoom, WiringError)):
-            k.violation("once", "raised_" + type(out.exc).__name__, shape, repr(out.exc)[:200])
+            out = call(self.ex.execute, external, enforce_static_checks=False, tracer=self.tr)
+        k.ev("execute", [phase, out.brief()[0], type(out.exc).__name__ if out.exc is not None else None,
+                         list(out.value.execution_order) if out.kind == "ok" and hasattr(out.value, "execution_order") else None])
+        calls, count = self.calls, self.count
+        count = count + [0] * (n - len(count))
+
+        raised_by_fake = any(c[1] == "raises" for c in calls)
+        is_wiring_error = out.kind == "raised" and isinstance(out.exc, WiringError)
+        if is_wiring_error:
+            k.probe("wiring_error")
+        if out.kind in ("deadlock", "fake_budget"):
+            raise HarnessError(f"unexpected outcome {out.kind}")
+
+        # ---------------- clause unschedulable: wiring error, never a loop, never a report
+        if out.kind == "step_budget":
+            k.violation("unschedulable", "scheduler_did_not_terminate", shape,
+                        f"execute() exceeded {STEP_BUDGET} executor lines; handler calls so far {count}")
+            return None
+        if reasons:
+            if out.kind == "ok":
+                k.violation("unschedulable", "report_returned", shape,
+                            f"diagram is unschedulable ({'+'.join(reasons)}) but execute("
+                            f"{'' if self.static else 'enforce_static_checks=False'}) returned order "
+                            f"{getattr(out.value, 'execution_order', None)}")
+            elif not is_wiring_error and not (raised_by_fake and isinstance(out.exc, HandlerBoom)):
+                k.violation("unschedulable", "raised_" + type(out.exc).__name__, shape, repr(out.exc)[:200])
+            return out.kind
+
+        # ---------------- schedulable diagram
+        mislabelled = [c for c in calls if c[1].startswith("mislabel")]
+        omitted_wired = [c for c in calls if any((c[0], q) in wired_out for q in c[2])]
+        deviated = [c for c in calls if c[1] != "conform"]
+        if out.kind == "ok":
+            rep = out.value
+            k.probe("executed")
+            if n >= 5:
+                k.probe("executed_5plus_modules")
+            if any(m["handler"] is not None and m["handler"][0] == "labelled" and m["outs"] for m in mods):
+                k.probe("labelled_outputs_accepted")
+            # -- mislabelled outputs / external inputs are rejected
+            if mislabelled:
+                j, cls, _ = mislabelled[0]
+                k.violation("mislabel_rejected", "report_returned_after_" + cls, f"{mods[j]['handler'][0]}:{shape}",
+                            f"m{j} returned a value contradicting its declared port ({cls}); execute() returned a report")
+            if ext_bad and not self.bad_label_delivered:
+                m_, p_ = ext_bad[0]
+                k.violation("delivery_label", "mislabelled_external_input_accepted", f"ext_labelled:{shape}",
+                            f"external value for m{m_}.i{p_} {ext[(m_, p_)][1:3]} does not fit {mods[m_]['ins'][p_]}")
+            if omitted_wired and not k.violations:
+                j = omitted_wired[0][0]
+                k.violation("all_inputs", "report_returned_although_wired_port_missing", f"{mods[j]['handler'][0]}:{shape}",
+                            f"m{j} omitted a wired output port, yet a report was returned")
+            # -- every module exactly once, in an order consistent with the wires
+            order = list(rep.execution_order)
+            names = [f"m{j}" for j in range(n)]
+            if sorted(order) != sorted(names):
+                k.violation("once", "report_does_not_list_every_module_once", shape, f"order={order}")
+            else:
+                pos = {nm: q for q, nm in enumerate(order)}
+                for s, sp, t, tp in self.accepted:
+                    if not pos[f"m{s}"] < pos[f"m{t}"]:
+                        k.violation("order", "module_before_its_feeder", shape,
+                                    f"wire m{s}.o{sp}->m{t}.i{tp} but order={order}")
+                        break
+            for j, m in enumerate(mods):
+                if m["handler"] is not None and count[j] != 1:
+                    k.violation("once", "handler_not_called_exactly_once", shape, f"m{j}: {count[j]} calls; order={order}")
+            called = [f"m{c[0]}" for c in calls]
+            if called != [nm for nm in order if nm in names and mods[int(nm[1:])]["handler"] is not None] \
+                    and sorted(order) == sorted(names):
+                k.violation("order", "call_order_differs_from_reported_order", shape, f"calls={called} order={order}")
+            # -- labels of the recorded inputs
+            for j, m in enumerate(mods):
+                rec = rep.modules.get(f"m{j}")
+                if rec is None:
+                    continue
+                for p, (pt, pg) in enumerate(m["ins"]):
+                    v = rec.inputs.get(f"i{p}")
+                    if (not isinstance(v, TypedValue) or v.data_type != DataType[pt] or not v.integrity >= IntegrityLabel(pg)) \
+                            and not self.bad_label_delivered:
+                        k.violation("delivery_label", "report_records_ill_labelled_input", f"{self.feeder(j, p)}:{shape}",
+                                    f"m{j}.i{p} {m['ins'][p]} recorded {v!r}"[:200])
+        else:
+            # raised: fine if something gave it a reason to
+            if not (deviated or raised_by_fake or ext_bad):
+                k.violation("once", "schedulable_diagram_not_executed", shape,
+                            f"all handlers and external inputs conform, yet execute() raised {out.exc!r}"[:240])
+            elif raised_by_fake and not isinstance(out.exc, (HandlerBoom, WiringError)):
+                k.violation("once", "raised_" + type(out.exc).__name__, shape, repr(out.exc)[:200])
+        return out.kind
+
+
+# --------------------------------------------------------------------------- one run
+def run(plan, k):
+    k.key = [plan["config"], plan["modules"], plan["ops"], plan["pre"], plan.get("post")]
+    scope = [seams.src("operon_ai/core/wiring_runtime.py"), seams.src("operon_ai/core/wagent.py")]
+    with SeqTracer(k, scope, STEP_BUDGET) as tr:
+        w = _World(k, plan, tr)
+        for m in plan["modules"]:
+            w.add_module(m)
+        # ---------------- building: connect accepts <=> same data type and source integrity >= destination integrity
+        for op in plan["ops"]:
+            if not w.connect(op):
+                return
+        for e in plan["pre"]:
+            w.set_ext(e)
+        w.capabilities()
+        first = w.execute(0)
+        k.nontrivial = w.nontrivial
+        post = plan.get("post")
+        if first is None or not post:
+            return
+        # ---------------- the diagram changes; the same executor executes it again
+        late_wire = late_mod = False
+        for e in post:
+            if e[0] == "mod":
+                w.add_module(e[1])
+                late_mod = True
+            elif e[0] == "wire":
+                n_acc = len(w.accepted)
+                if not w.connect(e[1:5]):
+                    return
+                late_wire = late_wire or len(w.accepted) > n_acc
+            elif e[0] == "ext":
+                w.set_ext(e[1:])
+            elif e[0] == "unext":
+                w.ext.pop((e[1], e[2]), None)
+            elif e[0] == "reg":
+                j = e[1]
+                if 0 <= j < len(w.mods) and w.mods[j]["handler"] is None:
+                    w.mods[j]["handler"] = list(e[2])
+                    w.register(j)
+        w.capabilities()
+        k.probe("second_execute")
+        if late_wire:
+            k.probe("second_execute_after_late_wire")
+        if late_mod:
+            k.probe("second_execute_after_late_module")
+        second = w.execute(1)
+        k.nontrivial = w.nontrivial
+        if first == "raised" and second == "ok":
+            k.probe("second_execute_ok_after_first_failed")
+        if first == "ok" and second == "raised":
+            k.probe("second_execute_refused_after_first_ok")
 
 
 def coverage_extra(tier):
-    return {"table_size": TABLE_SIZE, "table_shapes": [s[0] for s in SHAPES],
-            "table_exhaustive_subspace": "handler behaviours (10^modules) x 5 external labellings for each of the 14 shapes of <= 3 modules",
+    return {"table_size": TABLE_SIZE, "table_shapes": [s["name"] for s in SHAPES],
+            "table_exhaustive_subspace": "handler behaviours (10^modules) x 5 external labellings for each shape of <= 3 "
+                                         "modules (4 of them two-phase), x enforce_static_checks on/off for <= 2 modules",
             "sampled_beyond_table": RUNS[tier] - TABLE_SIZE, "step_budget_lines_per_call": STEP_BUDGET}
